@@ -2,7 +2,15 @@
 from pyvc.cdef import Contract, LoopSpec
 import specs.refsem as R
 
-SCHEMA = {}
+CRIT = ('rec', ['Comparison', 'BooleanExpression'])
+SCHEMA = {
+    'SequenceContainer': {'name': 'str', 'entry_list': ('list', ('rec', ['Parameter', 'SequenceContainer'])),
+                          'restriction_criteria': ('list', CRIT), 'abstract': 'bool', 'inheritors': ('list', 'str'),
+                          'base_container_name': ('opt', 'str')},
+    'XtcePacketDefinition': {'containers': ('smap', 'SequenceContainer'), 'root_container_name': ('opt', 'str')},
+}
+PKT_VALUES = ('mobj', 'CCSDSPacket', {'__items__': ('odict', {'kinds': ['IntParameter', 'FloatParameter', 'StrParameter'],
+                                                            'rawkinds': ['int', 'real', 'str']})})
 NATIVE_ENV = {k: getattr(R, k) for k in dir(R) if not k.startswith('_')}
 PENDING = ("contract evaluated by the bounded native stand-in only: the reference semantics (specs/refsem.py) walk the "
            "definition object graph; not yet translated by the symbolic front end")
@@ -118,9 +126,69 @@ _SREF = ("ref_stream(self, raws, headers_only=opts.get('ccsds_headers_only', Fal
          "combine=opts.get('combine_segmented_packets', False), sec=opts.get('secondary_header_bytes', 0), "
          "yield_errors=opts.get('yield_unrecognized_packet_errors', False), parse_bad=opts.get('parse_bad_pkts', True))")
 
+M = 'self.containers'
+CUR = 'current_container'
+NV = f'nvalid({CUR}, {M}, packet, len({CUR}.inheritors))'
+
 CONTRACTS = [
     Contract(
+        target='xtce.containers.SequenceContainer.parse',
+        props=['C05', 'C14', 'C11', 'C01'],
+        params={'self': ('rec', 'SequenceContainer'), 'packet': PKT_VALUES},
+        returns='none',
+        requires=[], ensures={},
+        may_raise={'ValueError': 'True', 'KeyError': 'True', 'ComparisonError': 'True', 'CalibrationError': 'True',
+                   'UnicodeDecodeError': 'True', 'TypeError': 'True', 'OverflowError': 'True'},
+        modifies=['packet.items', 'packet.raw_data.pos'],
+        native_only=('frame-only contract ASSUMED by the proof of parse_ccsds_packet: the entry-list walk writes the packet '
+                     'items and the cursor and nothing else; what it writes is checked against ref_parse by the bounded '
+                     'stand-in of parse_ccsds_packet'),
+    ),
+    Contract(
         target='xtce.definitions.XtcePacketDefinition.parse_ccsds_packet',
+        props=['C05', 'C01', 'C11'],
+        params={'self': ('rec', 'XtcePacketDefinition'), 'packet': PKT_VALUES, 'root_container_name': ('opt', 'str')},
+        returns=PKT_VALUES,
+        requires=['len(packet.raw_data) >= 6'],
+        loops={
+            ('', 0): LoopSpec(invariants={}, modifies=['packet.items', 'packet.raw_data.pos'],
+                              retype={'valid_inheritors': ('list', 'str')},
+                              step={
+                                  # C05 (PROVED): a descent happens only when EXACTLY ONE child has all its restriction
+                                  # criteria satisfied, and goes to a child that satisfies them
+                                  'descends_to_unique_child': (
+                                      f'nvalid(pre_{CUR}, {M}, packet, len(pre_{CUR}.inheritors)) == 1 and '
+                                      f'rc_match({CUR}, packet) and '
+                                      f'exists(lambda k: {CUR} == {M}[at(pre_{CUR}.inheritors, k)], 0, len(pre_{CUR}.inheritors))')}),
+            ('', 1): LoopSpec(invariants={
+                'count': f'len(valid_inheritors) == nvalid({CUR}, {M}, packet, _i)',
+                'members': (f'forall(lambda q: rc_match({M}[at(valid_inheritors, q)], packet) and '
+                            f'exists(lambda k: at(valid_inheritors, q) == at({CUR}.inheritors, k), 0, _i), 0, len(valid_inheritors))'),
+            }, retype={'valid_inheritors': ('list', 'str')},
+                hints=[f'implies(_i < len({CUR}.inheritors), nvalid_step({CUR}, {M}, packet, _i))',
+                       f'nvalid_zero({CUR}, {M}, packet)',
+                       f'implies(_i < len({CUR}.inheritors), rc_match_def({M}[at({CUR}.inheritors, _i)], packet))']),
+        },
+        comps={0: {'elem': f'sem_crit(at({M}[inheritor_name].restriction_criteria, j), packet, None)',
+                   'may_raise': ['ComparisonError', 'ValueError', 'KeyError', 'TypeError']}},
+        final={
+            # C05 (PROVED): a normal return happens only at a concrete container none of whose children matches
+            'ends_at_concrete_leaf': (f'result is packet and {NV} == 0 and not {CUR}.abstract', ['__proof__']),
+        },
+        ensures={},
+        may_raise={'UnrecognizedPacketTypeError': ('True', ['__proof__']), 'ValueError': ('True', ['__proof__']),
+                   'KeyError': ('True', ['__proof__']), 'ComparisonError': ('True', ['__proof__']),
+                   'CalibrationError': ('True', ['__proof__']), 'UnicodeDecodeError': ('True', ['__proof__']),
+                   'TypeError': ('True', ['__proof__']), 'OverflowError': ('True', ['__proof__'])},
+        ensures_raise={'UnrecognizedPacketTypeError': {
+            # C05 (PROVED): reported as unrecognized exactly at an abstract dead end or at an ambiguity, with the values
+            # decoded so far
+            'dead_end_or_ambiguous': (f'exc.partial_data is packet and (({NV} == 0 and {CUR}.abstract) or {NV} > 1)',
+                                      ['__proof__'])}},
+        modifies=['packet.items', 'packet.raw_data.pos'],
+    ),
+    Contract(
+        target='__native__.xtce.definitions.XtcePacketDefinition.parse_ccsds_packet',
         props=['C05', 'C01', 'C11', 'C04', 'C07', 'C08', 'C06'],
         params={}, native_only=PENDING,
         requires=[f"{_REF}[0] != 'error'"],
